@@ -288,6 +288,18 @@ def run_mag(rec, case):
         rec.check(close(v, ref), "C06:mag:TDMagMagnitude", "not N(data; [Ddt*fermat, m_model + m], C_data + scaled C_model)", dict(base, **kw), fscalar(v), ref)
 
 
+    # TDMagMagnitude with an EMPTY magnitude block (a lens entered with its time delays only): the magnitude offset touches nothing
+    if case[2] % 5 == 2:
+        cm = pd(rng, ntd, float(rng.uniform(0.02, 0.2)))
+        kw = dict(time_delay_measured=g["td"], cov_td_measured=g["cov_td"], magnitude_measured=np.array([]), cov_magnitude_measured=np.zeros((0, 0)),
+                  fermat_diff=g["fermat"], magnification_model=np.array([]), cov_model=cm)
+        ok, v = hier(rec, "C06:raises:TDMagMagnitude", dict(base, **kw), lambda: TDMagMagnitudeLikelihood(**kw).log_likelihood(ddt, mu))
+        if ok:
+            sc = ddt * FERMAT_UNIT * np.ones(ntd)
+            ref = float(mvn.logpdf(g["td"], sc * g["fermat"], g["cov_td"] + np.outer(sc, sc) * cm))
+            rec.check(close(v, ref), "C06:mag:TDMagMagnitude", "no magnitudes: not N(td; Ddt*fermat, C_td + scaled C_model)", dict(base, **kw), fscalar(v), ref)
+
+
 # ------------------------------------------------------------------ double source plane
 def dspl_ref(beta, gamma_pl, lam, b_meas, sig, normed):
     theta = (beta - (1 - lam) * (1 - beta)) ** (1.0 / (gamma_pl - 1))
